@@ -248,7 +248,7 @@ Print Assumptions C04_feasible_example_phase.
    each theorem says that the model's definition IS that expression, for all arguments.  A change of the expression in the code
    breaks the obligation even when no sampled input distinguishes old and new behaviour. *)
 Theorem C04_tie_single_copy : forall cov total pcn, Qltb 0 pcn = true ->
-  MinorModel.obs cov total pcn = (cov / single_copy_val total pcn)%Q.
+  (MinorModel.obs cov total pcn == cov / single_copy_val total pcn)%Q.
 Proof. exact single_copy_minor_tied. Qed.
 Goal True. idtac "ASSUME C04_tie_single_copy". Abort.
 Print Assumptions C04_tie_single_copy.
